@@ -71,7 +71,7 @@ def main():
         d = os.path.join(VERIF, "seeded", sid)
         patch = os.path.join(d, "patch.diff")
         used_base = None
-        for base in (None, BASE_COMMIT):
+        for base in (None, "3577d87", "864fa33", BASE_COMMIT):     # HEAD, then the trees the later seeding rounds were made on, then the snapshot
             tmp, dst = make_copy(base)
             r = subprocess.run(["patch", "-p1", "--no-backup-if-mismatch", "-i", patch], cwd=dst, capture_output=True, text=True)
             if r.returncode == 0:
